@@ -9,12 +9,48 @@ from .report import Run, AnalysisError
 FULL = {"_full_observable", "_full_grid"}
 
 
+def _private_closure(prog, C, roots):
+    """roots + the private helpers (self._x / Class._x) they call, transitively."""
+    out, work = [], list(roots)
+    while work:
+        f = work.pop()
+        if f in out:
+            continue
+        out.append(f)
+        sn = f.params[0] if f.params and f.kind != "static" else None
+        for n in ast.walk(f.node):
+            if isinstance(n, ast.Call) and isinstance(n.func, ast.Attribute) and \
+                    isinstance(n.func.value, ast.Name) and n.func.attr.startswith("_") \
+                    and not n.func.attr.startswith("__") and \
+                    (n.func.value.id == sn or n.func.value.id in ("self", "cls") or
+                     n.func.value.id in prog.classes):
+                g = prog.lookup(C, n.func.attr)
+                if g is not None and g not in out:
+                    work.append(g)
+    return out
+
+
 def d1(run: Run, prog: Program):
     """Derived series see only the window."""
     fam = [c for c in prog.classes.values() if any(b.name == "Data" for b in c.mro)]
     run.floor("Data family", len(fam), 2)
     n = 0
     for C in sorted(fam, key=lambda c: c.name):
+        roots = [m_ for m_ in (prog.lookup(C, "__init__"), prog.lookup(C, "set_window"))
+                 if m_ is not None]
+        # the constructor, set_window and the private helpers they are built of
+        window_code = {g for g in _private_closure(prog, C, roots)
+                       if g in roots or g.name.startswith("_")}
+        # ... provided nobody else calls those helpers
+        for g in list(window_code):
+            if g in roots:
+                continue
+            for h in C.methods.values():
+                if h in window_code:
+                    continue
+                if any(isinstance(n, ast.Call) and isinstance(n.func, ast.Attribute)
+                       and n.func.attr == g.name for n in ast.walk(h.node)):
+                    window_code.discard(g)
         for f in list(C.methods.values()):
             if f.kind != "method" or not f.params:
                 continue
@@ -24,7 +60,7 @@ def d1(run: Run, prog: Program):
                         and node.value.id == sn and node.attr in FULL and \
                         isinstance(node.ctx, ast.Load):
                     n += 1
-                    allowed = f.name in ("__init__", "set_window")
+                    allowed = f.name in ("__init__", "set_window") or f in window_code
                     # accepted: base of a `.silence_level = ...` store
                     parent_store = False
                     for st in ast.walk(f.node):
@@ -98,37 +134,85 @@ def d2(run: Run, prog: Program):
 
 
 def d3(run: Run, prog: Program):
-    """Closed-interval sibling form of the axis masks in Data.set_window."""
-    m = prog.classes["Data"].methods.get("set_window")
+    """Closed-interval sibling form of the axis masks in Data.set_window (and
+    the private helpers it is built of)."""
+    data = prog.classes["Data"]
+    m = data.methods.get("set_window")
     if m is None:
         raise AnalysisError("Data.set_window vanished")
     n = 0
     pairs = {}
-    wname = m.params[1] if len(m.params) > 1 else "window"
     FLIP = {"GtE": "LtE", "LtE": "GtE", "Gt": "Lt", "Lt": "Gt", "Eq": "Eq",
             "NotEq": "NotEq"}
+    code = [g for g in _private_closure(prog, data, [m]) if g is m or
+            g.name.startswith("_")]
 
-    def bound_key(e):
-        if isinstance(e, ast.Subscript) and isinstance(e.value, ast.Name) and \
-                e.value.id == wname and isinstance(e.slice, ast.Constant) and \
-                isinstance(e.slice.value, str) and \
-                e.slice.value.endswith(("_min", "_max")):
-            return e.slice.value
-        return None
-    mask_of = {}           # axis -> names of the locals holding the mask
-    for c in ast.walk(m.node):
-        if not (isinstance(c, ast.Compare) and len(c.ops) == 1):
-            continue
-        kl, kr = bound_key(c.left), bound_key(c.comparators[0])
-        if (kl is None) == (kr is None):
-            continue            # min == max short-cuts and unrelated tests
-        op = type(c.ops[0]).__name__
-        if kl is not None:      # bound on the left: read it array-first
-            op = FLIP.get(op, op)
-        key = kr or kl
-        n += 1
-        axis, kind = key.rsplit("_", 1)
-        pairs.setdefault(axis, {})[kind] = (op, c.lineno)
+    def window_names(f):
+        # the parameter(s) through which the window dict reaches f
+        return {p_ for p_ in f.params if "window" in p_}
+
+    def key_aliases(f):
+        """local name -> window key, for `a = w["k"]` and tuple forms"""
+        wn = window_names(f)
+        al = {}
+
+        def direct(e):
+            if isinstance(e, ast.Subscript) and isinstance(e.value, ast.Name) and \
+                    e.value.id in wn and isinstance(e.slice, ast.Constant) and \
+                    isinstance(e.slice.value, str) and \
+                    e.slice.value.endswith(("_min", "_max")):
+                return e.slice.value
+            return None
+        for a_ in ast.walk(f.node):
+            if not isinstance(a_, ast.Assign) or len(a_.targets) != 1:
+                continue
+            t, v = a_.targets[0], a_.value
+            if isinstance(t, ast.Name) and direct(v):
+                al[t.id] = direct(v)
+            elif isinstance(t, ast.Tuple) and isinstance(v, ast.Tuple) and \
+                    len(t.elts) == len(v.elts):
+                for x, y in zip(t.elts, v.elts):
+                    if isinstance(x, ast.Name) and direct(y):
+                        al[x.id] = direct(y)
+        return al, direct
+    bound_key_of = {}
+    for f in code:
+        al, direct = key_aliases(f)
+
+        def bk(e, al=al, direct=direct):
+            if isinstance(e, ast.Name) and e.id in al:
+                return al[e.id]
+            return direct(e)
+        bound_key_of[f] = bk
+    short_axes = set()
+    ret_axes = {}           # helper -> axes its returned masks are built from
+    for f in code:
+        bk = bound_key_of[f]
+        for c in ast.walk(f.node):
+            if not (isinstance(c, ast.Compare) and len(c.ops) == 1):
+                continue
+            kl, kr = bk(c.left), bk(c.comparators[0])
+            if kl is not None and kr is not None:
+                # min == max short-cut
+                if isinstance(c.ops[0], ast.Eq) and kl.rsplit("_", 1)[0] == \
+                        kr.rsplit("_", 1)[0]:
+                    short_axes.add(kl.rsplit("_", 1)[0])
+                continue
+            if kl is None and kr is None:
+                continue
+            op = type(c.ops[0]).__name__
+            if kl is not None:      # bound on the left: read it array-first
+                op = FLIP.get(op, op)
+            key = kr or kl
+            n += 1
+            axis, kind = key.rsplit("_", 1)
+            pairs.setdefault(axis, {})[kind] = (op, c.lineno)
+        for r in ast.walk(f.node):
+            if isinstance(r, ast.Return) and r.value is not None:
+                ks = {bk(x) for c in ast.walk(r.value) if isinstance(c, ast.Compare)
+                      for x in [c.left] + c.comparators} - {None}
+                for k in ks:
+                    ret_axes.setdefault(f.name, set()).add(k.rsplit("_", 1)[0])
     for axis, d in sorted(pairs.items()):
         ok = d.get("min", ("", 0))[0] == "GtE" and d.get("max", ("", 0))[0] == "LtE"
         run.oblige("D3", f"axis:{axis}", ok, sample={"relations": d})
@@ -138,12 +222,9 @@ def d3(run: Run, prog: Program):
                     f"Data.set_window selects the {axis} axis with {d}; the window is "
                     f"closed: `>= {axis}_min` and `<= {axis}_max` like its sibling "
                     f"axes")
-    run.floor("D3 axis bound comparisons", n, 6)
+    run.floor("D3 axis bound comparisons", n, 3)
     # coinciding bounds => full range short-cut for both masks
-    short = [c for c in ast.walk(m.node) if isinstance(c, ast.Compare)
-             and isinstance(c.ops[0], ast.Eq) and "_min" in ast.unparse(c.left)
-             and "_max" in ast.unparse(c.comparators[0])]
-    axes = sorted({ast.unparse(c.left).split("'")[1].split("_")[0] for c in short})
+    axes = sorted(short_axes)
     ok = axes == ["lat", "lon", "time"]
     run.oblige("D3", "coinciding-bounds-shortcut", ok, sample={"axes": axes})
     if not ok:
@@ -153,26 +234,31 @@ def d3(run: Run, prog: Program):
     # the stored view is selected with exactly these masks, by fancy indexing
     st = [s for s in ast.walk(m.node) if isinstance(s, ast.Assign)
           and ast.unparse(s.targets[0]) == "self._observable"]
-    # masks: the locals assigned from the bound comparisons
+    # masks: the locals assigned from the bound comparisons, directly or through
+    # a helper that returns them
     masks = {}
+    bk = bound_key_of[m]
     for a_ in ast.walk(m.node):
         if isinstance(a_, ast.Assign) and isinstance(a_.targets[0], ast.Name):
-            keys = {bound_key(x) for c in ast.walk(a_.value) if isinstance(c, ast.Compare)
+            keys = {bk(x) for c in ast.walk(a_.value) if isinstance(c, ast.Compare)
                     for x in [c.left] + c.comparators} - {None}
             for k in keys:
                 masks.setdefault(a_.targets[0].id, set()).add(k.rsplit("_", 1)[0])
+            for c in ast.walk(a_.value):
+                if isinstance(c, ast.Call) and isinstance(c.func, ast.Attribute) and \
+                        c.func.attr in ret_axes:
+                    masks.setdefault(a_.targets[0].id, set()).update(ret_axes[c.func.attr])
     ok = False
     if len(st) == 1:
         v = st[0].value
         used = set()
         base = v
-        fancy = True
         while isinstance(base, ast.Subscript):
             used |= {x.id for x in ast.walk(base.slice) if isinstance(x, ast.Name)}
             base = base.value
+        got = set().union(*[masks.get(u, set()) for u in used] or [set()])
         ok = ast.unparse(base) == "self._full_observable" and \
-            {"time"} <= set().union(*[masks.get(u, set()) for u in used] or [set()]) and \
-            {"lat", "lon"} <= set().union(*[masks.get(u, set()) for u in used] or [set()])
+            {"time", "lat", "lon"} <= got
     run.oblige("D3", "view-selection", ok, sample={
         "value": ast.unparse(st[0].value) if st else None})
     if not ok:
